@@ -87,6 +87,16 @@ def provedSites : List String :=
 
 theorem sites_covered : ∀ s ∈ Generated.mapRangeSites, s ∈ provedSites := by decide
 
+/-- **every sort in the tool orders by the plain byte-wise string order** (the order `AMap.strLe` the
+model sorts with): a changed comparator — case-insensitive, by length, reversed — breaks this pin,
+and ties under a coarser comparator would expose Go's map order again -/
+theorem sort_sites_pinned :
+    Generated.sortSites =
+      ["imports.imports.Imports: sort.SliceStable: { return imps[i].Path < imps[j].Path }",
+       "maps.Keys: sort.Slice: { return keys[i] < keys[j] }",
+       "runner.StepReadConfig.Run: sort.Strings(processedFiles)",
+       "runner.StepReadConfig.findFiles: sort.Strings(matches)"] := by decide
+
 /-- **no ambient input**: the tool's own code reads no environment variable, clock, working directory
 or random source; its only contacts with the outside are reading the input files, globbing/cleaning
 paths, writing the output file and the exit status -/
